@@ -241,14 +241,13 @@ class Blockwise(ArrayExpr):
         return True
 
     def _requires_grid_preservation(self, dependency):
-        if type(self) is not Blockwise:
-            return False
-        if not self.align_arrays:
-            return True
         # An explicit per-block ``adjust_chunks`` tuple has one entry per input
-        # block, so it observes the input's grid as well.
-        adjust_chunks = self.operand("adjust_chunks") or {}
-        return any(isinstance(v, (tuple, list)) for v in adjust_chunks.values())
+        # block, so it observes the input's grid -- in subclasses that carry
+        # one (``sliding_window_view``) as much as in a plain Blockwise.
+        adjust_chunks = getattr(self, "adjust_chunks", None) or {}
+        if any(isinstance(v, (tuple, list)) for v in adjust_chunks.values()):
+            return True
+        return type(self) is Blockwise and not self.align_arrays
 
     def _idx_to_block(self, block_id: tuple[int, ...]) -> dict:
         """Map symbolic indices to output block coordinates."""
